@@ -470,7 +470,7 @@ static Result run_fit(const json &c) {
   }
   const bool noisy = ynoise > 0;
   r.cls(type + (noisy ? "/noisy" : "/exact"));
-  r.cls(kg.hmax - kg.hmin > 1e-9 * kg.hmax ? "last-interval-short" : "step-divides-range");
+  r.cls(kg.hmax - kg.hmin > 1e-9 * kg.hmax ? "last-interval-longer" : "step-divides-range");
   r.nontrivial = nk >= 3 && xd.size() > nk;
   const double Y = vmaxabs(yd) + vmaxabs(kv);
   double F2 = 0;
